@@ -14,13 +14,15 @@ CONSTANTS Calls,          \* call ids
           Conns,          \* connection ids
           Limit,          \* permits per connection
           Tmos,           \* possible deadlines in ticks (0 = none)
+          SrvTmos,        \* possible values of Server::timeout in ticks (0 = not configured)
           MaxTime,
           TimerFromAdmission   \* deviation switch: TRUE = only the server's timer exists (a caller that does not enforce its own deadline)
 VARIABLES conn, tmo,      \* per call: its connection and deadline (fixed at Init)
+          srvTmo,         \* Server::timeout (fixed at Init): like the server's reading of grpc-timeout, its clock starts at admission
           st,             \* per call: "unsent" | "queued" | "running" | "ok" | "cut"
           q,              \* per connection: calls waiting for a permit, oldest first
           now, sentAt, admAt
-vars == <<conn, tmo, st, q, now, sentAt, admAt>>
+vars == <<conn, tmo, srvTmo, st, q, now, sentAt, admAt>>
 
 Running(c) == { k \in Calls : st[k] = "running" /\ conn[k] = c }
 RECURSIVE FillOne(_, _, _, _)
@@ -35,26 +37,29 @@ FillAll(cs, s, qs, adm) ==
 \* common tail of every action: given the state after the environment's step, admit whoever can be admitted
 Fill(s, qs) == LET r == FillAll(Conns, s, qs, admAt) IN st' = r.st /\ q' = r.q /\ admAt' = r.adm
 
-Init == /\ conn \in [Calls -> Conns] /\ tmo \in [Calls -> Tmos]
+Init == /\ conn \in [Calls -> Conns] /\ tmo \in [Calls -> Tmos] /\ srvTmo \in SrvTmos
         /\ st = [k \in Calls |-> "unsent"] /\ q = [c \in Conns |-> <<>>]
         /\ now = 0 /\ sentAt = [k \in Calls |-> 0] /\ admAt = [k \in Calls |-> 0]
 
 Send(k) == /\ st[k] = "unsent" /\ now' = now
            /\ sentAt' = [sentAt EXCEPT ![k] = now]
            /\ Fill([st EXCEPT ![k] = "queued"], [q EXCEPT ![conn[k]] = Append(@, k)])
-           /\ UNCHANGED <<conn, tmo>>
+           /\ UNCHANGED <<conn, tmo, srvTmo>>
 \* the handler of a running call is allowed to complete: the caller gets its answer, the permit goes to the oldest waiter
 Release(k) == /\ st[k] = "running" /\ now' = now
               /\ Fill([st EXCEPT ![k] = "ok"], q)
-              /\ UNCHANGED <<conn, tmo, sentAt>>
-Expired(k, t) == /\ tmo[k] > 0 /\ st[k] \in {"queued", "running"}
-                 /\ IF TimerFromAdmission THEN st[k] = "running" /\ t - admAt[k] >= tmo[k] ELSE t - sentAt[k] >= tmo[k]
+              /\ UNCHANGED <<conn, tmo, srvTmo, sentAt>>
+\* the shorter of the two deadlines the server enforces for a call, from its admission (0 = none)
+SrvEff(k) == IF tmo[k] = 0 THEN srvTmo ELSE IF srvTmo = 0 THEN tmo[k] ELSE IF tmo[k] < srvTmo THEN tmo[k] ELSE srvTmo
+Expired(k, t) == /\ st[k] \in {"queued", "running"}
+                 /\ \/ (~TimerFromAdmission /\ tmo[k] > 0 /\ t - sentAt[k] >= tmo[k])                \* the caller's own timer
+                    \/ (st[k] = "running" /\ SrvEff(k) > 0 /\ t - admAt[k] >= SrvEff(k))           \* the server's timer
 Tick == /\ now < MaxTime /\ now' = now + 1
         /\ LET gone == { k \in Calls : Expired(k, now + 1) }
                s1 == [k \in Calls |-> IF k \in gone THEN "cut" ELSE st[k]]
                q1 == [c \in Conns |-> SelectSeq(q[c], LAMBDA k : k \notin gone)]
            IN Fill(s1, q1)
-        /\ UNCHANGED <<conn, tmo, sentAt>>
+        /\ UNCHANGED <<conn, tmo, srvTmo, sentAt>>
 Next == (\E k \in Calls : Send(k) \/ Release(k)) \/ Tick
 Spec == Init /\ [][Next]_vars /\ WF_vars(\E k \in Calls : Send(k)) /\ WF_vars(\E k \in Calls : Release(k))
 
@@ -72,6 +77,8 @@ Fifo == \A c \in Conns : \A i \in 1..Len(q[c]) : \A k \in Calls :
 CutOnTime == \A k \in Calls : (tmo[k] > 0 /\ st[k] \in {"queued", "running"}) => now - sentAt[k] < tmo[k]
 \* calls on one connection never wait for permits of another
 Independent == \A c \in Conns : (Cardinality(Running(c)) < Limit) => q[c] = <<>>
+\* the server's own timeout bounds the time a handler runs, not the time its request waits
+ServerTimerFromAdmission == \A k \in Calls : (st[k] = "running" /\ srvTmo > 0) => now - admAt[k] < srvTmo
 Done == \A k \in Calls : st[k] \in {"ok", "cut"}
 EveryCallEnds == <>Done
 =============================================================================
